@@ -4,6 +4,7 @@ package encryption
 // (env LBVC_INPUT, JSON list of {name,type,value}); the real method is called under recover.
 
 import (
+	"strconv"
 	"encoding/json"
 	"fmt"
 	"os"
@@ -48,11 +49,63 @@ func lbvcHandler(t *testing.T) *LocalEncryptionHandler {
 	return h
 }
 
+// every single-byte corruption of the stored form - the wrapped key next to the ciphertext included - and a value sealed
+// under another master key must yield an error, whether the reader is the handler that sealed the value or a fresh one
+func lbvcTamperSweep(t *testing.T) {
+	sealer := lbvcHandler(t)
+	reader := lbvcHandler(t)
+	for _, n := range []int{0, 1, 16, 1000} {
+		value := make([]byte, n)
+		for i := range value {
+			value[i] = byte(i*7 + 3)
+		}
+		sealed, err := sealer.Seal(value)
+		if err != nil {
+			t.Skipf("cannot seal: %v", err)
+		}
+		for who, h := range map[string]*LocalEncryptionHandler{"the handler that sealed it": sealer, "a fresh handler": reader} {
+			if pt, err := h.Read(sealed); err != nil || string(pt) != string(value) {
+				continue // (not this sweep's symptom)
+			}
+			accepted, first := 0, ""
+			for pos := 0; pos < len(sealed); pos++ {
+				for _, mask := range []byte{0x01, 0x80, 0xff} {
+					bad := append([]byte{}, sealed...)
+					bad[pos] ^= mask
+					var pt []byte
+					var err error
+					func() {
+						defer func() {
+							if r := recover(); r != nil {
+								err = os.ErrInvalid
+							}
+						}()
+						pt, err = h.Read(bad)
+					}()
+					if err == nil {
+						accepted++
+						if first == "" {
+							first = strings.TrimSpace(strings.Join([]string{"stored byte", itoa(pos), "of", itoa(len(sealed)), "xor", itoa(int(mask)), "was accepted and", itoa(len(pt)), "bytes returned"}, " "))
+						}
+					}
+				}
+			}
+			if accepted > 0 {
+				t.Fatalf("LBVC-REPRODUCED (obligation %s): a value of %d bytes read back by %s: %s (%d single-byte corruptions of the stored form are accepted)", os.Getenv("LBVC_OBLIGATION"), n, who, first, accepted)
+			}
+		}
+	}
+}
+
+func itoa(n int) string { return strconv.Itoa(n) }
+
 func TestLbvcScenarioRead(t *testing.T) {
 	data, ok := lbvcBytes(t, "encryptedData")
 	if !ok {
+		lbvcTamperSweep(t)
 		t.Skip("no model input")
 	}
+	defer lbvcTamperSweep(t)
 	h := lbvcHandler(t)
 	defer func() {
 		if r := recover(); r != nil {
